@@ -239,6 +239,80 @@ def tup(x):
     return tuple(tup(i) for i in x) if isinstance(x, (list, tuple)) else x
 
 
+# ---- grammar-import family: the rules of the objects live in different grammar files
+GI_RULES = {"M": "Model: xs*=X;", "X": "X: 'x' name=ID ('{' ys*=Y '}')? (z=Z)?;", "Y": "Y: 'y' name=ID (z=Z)? ('[' ys*=Y ']')?;", "Z": "Z: 'z' name=ID;"}
+# which file defines which rule, and the imports of each file (no import cycles: C25 owns those); main.tx always defines Model
+GI_LAYOUTS = {
+    "single": ({"main": "MXYZ"}, {}),
+    "direct": ({"main": "M", "a": "X", "b": "YZ"}, {"main": ["a", "b"], "a": ["b"]}),
+    "chain": ({"main": "M", "a": "X", "b": "YZ"}, {"main": ["a"], "a": ["b"]}),
+    "chain3": ({"main": "M", "a": "X", "b": "Y", "c": "Z"}, {"main": ["a"], "a": ["b", "c"], "b": ["c"]}),
+}
+GI_INPUTS = ["x a", "x a { y b }", "x a { y b z c } z d", "x a { y b [ y e z f ] } x g z h", "x a { y b z c y i [ y e [ y j z k ] ] }"]
+
+
+def run_import_case(layout, text):
+    from textx import metamodel_from_file
+
+    files, imports = GI_LAYOUTS[layout]
+    d = os.path.join(core.rundir(), "c13g-%d" % os.getpid(), layout)
+    os.makedirs(d, exist_ok=True)
+    for fn, rules in files.items():
+        with open(os.path.join(d, fn + ".tx"), "w") as f:
+            f.write("".join("import %s\n" % i for i in imports.get(fn, [])) + "\n".join(GI_RULES[r] for r in rules) + "\n")
+    mm = metamodel_from_file(os.path.join(d, "main.tx"))
+    log = []
+
+    def rec(rule):
+        def p(o):
+            log.append((rule, getattr(o, "name", None), [getattr(c, "name", None) for c in kids(o)]))
+        return p
+
+    def kids(o):
+        out = []
+        for a in ("xs", "ys"):
+            out += list(getattr(o, a, []) or [])
+        if getattr(o, "z", None) is not None:
+            out.append(o.z)
+        return out
+    mm.register_obj_processors({r: rec(r) for r in ("Model", "X", "Y", "Z")})
+    m = mm.model_from_str(text)
+    # expected: every object exactly once, children before their container
+    exp = []
+
+    def walk(o, rule):
+        for c in kids(o):
+            walk(c, type(c).__name__)
+        exp.append((rule, getattr(o, "name", None)))
+    walk(m, "Model")
+    got = [(r, n) for r, n, _ in log]
+    bad = []
+    if sorted(got, key=str) != sorted(exp, key=str):
+        bad.append(("processor calls", "missing %s" % sorted(set(exp) - set(got), key=str), "unexpected or repeated %s" % sorted([g for g in got if got.count(g) > 1 or g not in exp], key=str)))
+    pos = {g: i for i, g in enumerate(got)}
+    for r, n, ks in log:
+        for k in ks:
+            kk = [g for g in got if g[1] == k]
+            if kk and pos[kk[0]] > pos[(r, n)]:
+                bad.append(("container processed before its child", n, k))
+    return not bad, {"layout": layout, "grammar_files": {k: v for k, v in files.items()}, "imports": imports, "input": text, "calls": got, "failures": bad[:3]}
+
+
+def work_import(arg):
+    u = Unit()
+    for layout, text in arg:
+        try:
+            with watchdog(20):
+                ok, obs = run_import_case(layout, text)
+        except Exception as e:
+            ok, obs = False, {"layout": layout, "input": text, "failures": [("exception", "%s: %s" % (type(e).__name__, e))]}
+        u.case(["grammar-imports", layout, text], nontrivial=layout != "single", sample=obs if ok else None)
+        u.count("grammar-import layout:" + layout)
+        if not ok:
+            u.fail(["grammar-imports", layout, text], {"gi": [layout, text]}, sig="grammar imports %s %s" % (layout, obs["failures"][0][0]), what=str(obs)[:600])
+    return u
+
+
 def run(ctx):
     plan = [(1, True), (2, True), (3, False)] if ctx.tier == "quick" else [(1, True), (2, True), (3, True), (4, False)]
     units = []
@@ -248,12 +322,16 @@ def run(ctx):
         nf += len(fs)
         units += [(fs[i:i + 3], wr, True) for i in range(0, len(fs), 3)]
     ctx.pmap(work, units)
+    ctx.pmap(work_import, [[(l, t)] for l in GI_LAYOUTS for t in GI_INPUTS])
     return {
         "rule": "case = (forest, optional reference, user class on/off, replacement variant of %s, one file or split into lib.m + main.m at every "
-                "top-level position); plan (objects, all references?) = %s; non-trivial = more than one object" % (VARIANTS, plan),
+                "top-level position); plan (objects, all references?) = %s; non-trivial = more than one object; plus the grammar-import family: the rules "
+                "Model/X/Y/Z spread over grammar files in the layouts %s x %d inputs" % (VARIANTS, plan, list(GI_LAYOUTS), len(GI_INPUTS)),
         "exhaustive": True, "forests": nf,
     }, ["a processor call is identified by (rule, object name); names are unique"]
 
 
 def replay(p):
+    if "gi" in p:
+        return run_import_case(*p["gi"])
     return run_case(tup(p["forest"]), tup(p["ref"]) if p["ref"] else None, p["user"], p["variant"], p["two"])
